@@ -1,0 +1,151 @@
+// Copyright (C) 2026 Storj Labs, Inc.
+// See LICENSE for copying information.
+
+//go:build verif
+
+package drpcmanager
+
+// Machine-checked contracts for this package (read by /verif/govc; comment-only).
+// Channel hand-offs between the manager's goroutines (sem, sfin, pkts, pdone, streams) are
+// abstracted: a select is a nondeterministic choice, a receive yields an arbitrary value.
+
+//@ axiom closedCh != nil
+
+//@ spec mTerm(m *Manager) bool = (m.sigs.term.status & 2) != 0
+
+//@ monitor streamBuffer.mu
+//@   protects closed
+//@   guarantee [g-closed] old(self.closed) ==> self.closed
+
+//@ func (*streamBuffer).init
+//@   inline
+//@ func (*streamBuffer).Get
+//@   inline
+//@ func (*streamBuffer).Set
+//@   props C02
+//@   modifies sb.stream
+//@ func (*streamBuffer).Close
+//@   props C12 C05
+//@   check [closed] sb.closed
+//@ func (*streamBuffer).Wait
+//@   props C02 C13
+//@   loop 1 invariant [sb] sb == sb0 && sid == sid0
+//@   check [closed] !result ==> sb.closed
+
+//@ func (*Manager).log
+//@   inline
+
+// terminate: the transport is closed by the call that wins the term signal, and by nobody else.
+//@ func (*Manager).terminate
+//@   props C05 C12 C04
+//@   requires err != nil && m.tr != nil
+//@   ghost entry won = false
+//@   ghost after:(*Signal).Set#1 won = ret
+//@   site Close assert [C12.close-by-winner] won && eventCount("invoke:Close") == 0
+//@   site (*Signal).Set#1 assert [nonnil-set] arg1 != nil
+//@   check [C12.close-once]  eventCount("invoke:Close") <= 1 && (won ==> eventCount("invoke:Close") == 1 && eventCount("call:(*streamBuffer).Close") == 1)
+//@   check [C12.loser-noop]  !won ==> eventCount("invoke:Close") == 0
+//@   ensures [C05.terminated] mTerm(m)
+
+// acquireSemaphore: once the manager is terminated every call fails.
+//@ func (*Manager).acquireSemaphore
+//@   props C05 C07 C12
+//@   requires ctx != nil
+//@   assumes "the manager's term signal is only ever set with a non-nil error (asserted at the Set call site in terminate: [nonnil-set])"
+//@   ghost entry sawTerm = false
+//@   ghost after:(*Signal).Get#1 sawTerm = ret1
+//@   site (*Signal).Get#1 assumeafter [nonnil] ret1 ==> ret0 != nil
+//@   check [C05.fails-after-term] sawTerm ==> result != nil
+//@   check [C05.monotone]         old(mTerm(m)) ==> sawTerm
+
+//@ func (*Manager).waitForPreviousStream
+//@   props C07 C02
+//@   requires ctx != nil
+//@   ghost entry prevNil = false
+//@   ghost entry prevFin = false
+//@   ghost after:(*Stream).IsFinished#1 prevFin = ret
+//@   check [C07.previous-finished] err == nil ==> eventCount("call:(*Stream).IsFinished") == 0 || prevFin || eventCount("recv") + eventCount("select-recv") >= 1
+
+// manageReader: a packet is handed only to the stream with the same id; packets of lower stream ids
+// are dropped; every exit either saw the manager terminated or terminated it.
+//@ func (*Manager).manageReader
+//@   props C02 C05 C12 C13
+//@   requires m.rd != nil && m.tr != nil && readerInv(m.rd)
+//@   modifies *
+//@   loop 1 invariant [m] m == m0 && m.rd != nil && m.tr != nil && readerInv(m.rd) && (arr(pkt.Data) == 0 || (arr(pkt.Data) != arr(m.rd.buf) && arr(pkt.Data) != arr(m.rd.curr)))
+//@   loop 2 invariant [m] m == m0 && m.rd != nil && m.tr != nil && readerInv(m.rd) && (arr(pkt.Data) == 0 || (arr(pkt.Data) != arr(m.rd.buf) && arr(pkt.Data) != arr(m.rd.curr)))
+//@   site (*Stream).HandlePacket assert [C02.dispatch] arg0 != nil && arg1.ID.Stream == arg0.id.Stream
+//@   site (*Stream).Cancel assert [C02.cancel-current] arg0 != nil && arg1 != nil
+//@   site (*Manager).terminate assert [C05.nonnil] arg1 != nil
+
+//@ func (*Manager).Close
+//@   props C12
+//@   requires m.tr != nil
+//@   check [C12.waits] eventCount("call:(*Signal).Wait") == 3 && eventAfterLast("call:(*Manager).terminate", "call:(*Signal).Wait")
+
+//@ func (*Manager).NewClientStream
+//@   props C02 C07
+//@   requires ctx != nil && m.wr != nil
+//@   modifies *
+//@   ghost entry prevID = 0
+//@   ghost after:(*Stream).ID#1 prevID = ret
+//@   site (*Manager).newStream assert [C02.next-id] arg2 == prevID + 1
+
+//@ func isConnectionReset
+//@   props C13
+//@   trusted "classifies an error with errors.As/errors.Is and string matching; only selects which error class wraps the read error"
+
+//@ func (*Manager).newStream
+//@   props C02 C05
+//@   assumes "the manager's term signal is only ever set with a non-nil error ([nonnil-set] in terminate)"
+//@   site (*Signal).Err assumeafter [nonnil] ret != nil
+//@   requires m.wr != nil
+//@   modifies *
+//@   ensures [C02.id] result1 == nil ==> result0 != nil && result0.id.Stream == sid
+
+// NewServerStream: metadata is attached only when it arrived, in this very call, on the stream id of
+// the invoke that follows it; the stream is created with the invoke's id.
+//@ func (*Manager).NewServerStream
+//@   props C11 C02 C13 C05
+//@   requires ctx != nil && m.wr != nil
+//@   modifies *
+//@   ghost entry gotMeta = false
+//@   ghost after:Decode gotMeta = true
+//@   loop 1 invariant [m] m == m0 && m.wr != nil && (!gotMeta ==> metaID == 0 && meta == nil)
+//@   site AddPairs assert [C11.scope] (gotMeta || meta == nil) && arg1 == meta && eventCount("call:AddPairs") == 0
+//@   site (*Manager).newStream assert [C02.invoke-id] eventCount("call:(*Manager).newStream") == 0
+
+//@ func (*Manager).manageStreams
+//@   props C12
+//@   requires m.tr != nil
+//@   modifies *
+//@   loop 1 invariant [m] m == m0
+//@   assumes "values received on m.streams are the ones newStream sent (non-nil context and stream with the manager's writer); m.tr is never reassigned after construction"
+//@   site (*Manager).manageStream assume [chan-content] arg1 != nil && arg2 != nil && arg2.wr != nil && arg2.wr.w != nil && arg0.tr != nil
+
+// manageStream, per select branch (0: manager terminated, 1: stream finished, 2: context done):
+// a terminated manager or a cancelled context always cancels the stream; in soft-cancel mode the
+// cancel packet is tried first and a busy or failing SendCancel terminates the manager; in the
+// default mode an unfinished stream terminates the manager (which closes the transport).
+//@ func (*Manager).manageStream
+//@   props C04 C12 C05
+//@   requires stream != nil && ctx != nil && m.tr != nil && stream.wr != nil && stream.wr.w != nil
+//@   modifies *
+//@   assumes "ctx.Err() is non-nil once ctx.Done() is closed (context contract); the term signal carries a non-nil error"
+//@   site Err assumeafter [ctx-err] ret != nil
+//@   site (*Signal).Err assumeafter [nonnil] ret != nil
+//@   ghost entry cret = true
+//@   ghost after:(*Stream).Cancel cret = ret
+//@   ghost entry busy = false
+//@   ghost after:(*Stream).SendCancel busy = ret0
+//@   ghost entry scerr = nil
+//@   ghost after:(*Stream).SendCancel scerr = ret1
+//@   site (*Stream).Cancel assert [C04.cancel-nonnil] arg1 != nil
+//@   site (*Manager).terminate assert [C04.terminate-nonnil] arg1 != nil
+//@   check [C04.term-cancels]  eventCount("select:0") == 1 ==> eventCount("call:(*Stream).Cancel") == 1
+//@   check [C04.fin-noop]      eventCount("select:1") == 1 ==> eventCount("call:(*Stream).Cancel") == 0 && eventCount("call:(*Manager).terminate") == 0
+//@   check [C04.ctx-cancels]   eventCount("select:2") == 1 ==> eventCount("call:(*Stream).Cancel") == 1
+//@   check [C04.soft-order]    eventCount("select:2") == 1 && m.opts.SoftCancel ==> eventCount("call:(*Stream).SendCancel") == 1 && eventAfterLast("call:(*Stream).SendCancel", "call:(*Stream).Cancel")
+//@   check [C04.soft-busy]     eventCount("select:2") == 1 && old(m.opts.SoftCancel) && (busy || scerr != nil) ==> eventCount("call:(*Manager).terminate") == 1
+//@   check [C04.hard-unfinished] eventCount("select:2") == 1 && !old(m.opts.SoftCancel) && !cret ==> eventCount("call:(*Manager).terminate") == 1
+//@   check [C04.hard-no-packet] !old(m.opts.SoftCancel) ==> eventCount("call:(*Stream).SendCancel") == 0
